@@ -73,6 +73,8 @@ type Env struct {
 	doneCount  map[string]int // tag|path -> completed (not aborted) executions
 	prodN      int
 	States     []*St
+	StatePath  map[*St]string
+	CritCount  map[*St]int // entries into the critical section per state object
 	inCrit     map[*St]string // mutual exclusion monitor
 	Problems   []Problem
 	Faults     map[string]int
@@ -86,7 +88,8 @@ type Problem struct{ Class, Msg string }
 
 func NewEnv(s *kernel.Sim) *Env {
 	return &Env{S: s, branchEval: map[string]int{}, execCount: map[string]int{}, doneCount: map[string]int{},
-		inCrit: map[*St]string{}, Faults: map[string]int{}, Probes: map[string]int{}}
+		inCrit: map[*St]string{}, Faults: map[string]int{}, Probes: map[string]int{}, Callbacks: &CBLog{},
+		StatePath: map[*St]string{}, CritCount: map[*St]int{}}
 }
 
 func (e *Env) Seq() int { e.seq++; return e.seq }
@@ -308,6 +311,7 @@ func (b *builder) critical(ctx context.Context, st *St, who string) {
 		e.problem("C11/mutual-exclusion", fmt.Sprintf("%s entered the state critical section while %s was inside", who, other))
 	}
 	e.inCrit[st] = who
+	e.CritCount[st]++
 	v := st.N
 	e.S.Yield("crit:" + who)
 	st.N = v + 1
@@ -427,6 +431,7 @@ func (b *builder) lambda(p *Plan, n *Node, full string) *compose.Lambda {
 func (b *builder) nodeOpts(p *Plan, n *Node, full string) []compose.GraphAddNodeOpt {
 	var opts []compose.GraphAddNodeOpt
 	e := b.env
+	opts = append(opts, compose.WithNodeName("n:"+full))
 	if n.OutKey != "" {
 		opts = append(opts, compose.WithOutputKey(n.OutKey))
 	}
@@ -535,6 +540,7 @@ func (b *builder) newGraphOpts(p *Plan, path string) []compose.NewGraphOption {
 	return []compose.NewGraphOption{compose.WithGenLocalState(func(ctx context.Context) *St {
 		st := &St{Tag: tagOf(ctx), ID: len(e.States) + 1}
 		e.States = append(e.States, st)
+		e.StatePath[st] = path
 		e.S.Log(fmt.Sprintf("genstate %s %s id=%d", st.Tag, path, st.ID))
 		return st
 	})}
